@@ -61,7 +61,7 @@ def table : List (Nat × SiteClass × String) := [
   (3035055033, .proportional 1,      "minecraft get_string: length checked against remaining_length() before the reservation"),
   (966780026,  .unreachable,         "http.rs request(): HttpClient::get is not used by any query (Eco and the services use get_json / post_json)"),
   (717832595,  .unreachable,         "http.rs request(): same"),
-  (398570767,  .unreachable,         "http.rs request(): same (Content-Length.min(1 GiB) would not be acceptable on a query path)"),
+  (1531723834, .unreachable,         "http.rs request(): same (Content-Length.min(1 GiB) would not be acceptable on a query path)"),
   (3066700723, .proportional 24,     "gs1 extract_players: min(maxplayers, number of entries) HashMaps of 48 bytes; an entry takes ≥ 2 bytes"),
   (1170217600, .proportional 64,     "gs1 extract_players: one Player per collected player table, index < number of entries"),
   (2056167894, .proportional 24,     "gs1 extract_players: index guarded by id < entries before the table grows"),
